@@ -182,7 +182,26 @@ def tally(ctx, trace):
                 for k in e['cfg'].values():
                     inc('cfg:' + k)
                 slots = {}
+                clock, host_of, asked, granted = 0, {}, {}, {}
                 continue
+            # the shape TokenFresh needs: on one host a token granted LATER has expired (by more than the
+            # "may" band: at or past its stated lifetime) while one granted EARLIER still has more than a
+            # second left, and a call now requires a scope that only the expired one covers
+            if op == 'tick':
+                clock = e['t']
+            elif op == 'begin':
+                host_of[e['c']] = e['h']
+                toks = granted.get(e['h'], [])
+                need = set(e['req'])
+                for j, (exp_j, sc_j) in enumerate(toks):
+                    if clock >= exp_j and need <= sc_j and any(exp_i - clock > 2 and not need <= sc_i for exp_i, sc_i in toks[:j]) \
+                            and not any(exp_k > clock and need <= sc_k for exp_k, sc_k in toks):
+                        inc('shape:expired-token-behind-live-one-needed-again')
+                        break
+            elif op == 'tokreq':
+                asked[e['c']] = set(e['scope'])
+            elif op == 'tokresp' and e['kind'] == 'grant':
+                granted.setdefault(host_of.get(e['c'], '?'), []).append((clock + (e['life'] or 120), asked.get(e['c'], set())))
             if op == 'begin':
                 slots[e['c']] = 0
                 inc('begin:body=' + e['body'])
@@ -212,7 +231,7 @@ def tally(ctx, trace):
 
 NEEDED = {
     'C10': ['regreq:1:bearer', 'regreq:2:bearer', 'regreq:1:static', 'tokreq:POST:refresh', 'tokreq:GET:none', 'tokresp:grant', 'tokresp:grant:life',
-            'tokresp:e401', 'tick', 'tokreq:challenge-text-kept'],
+            'tokresp:e401', 'tick', 'tokreq:challenge-text-kept', 'shape:expired-token-behind-live-one-needed-again'],
     'C11': ['regreq:2:basic', 'regreq:1:basic', 'tokreq:GET:basic', 'tokreq:POST:refresh', 'tokresp:e404', 'cfglookup', 'end:403', 'end:-1',
             'begin:body=plain', 'begin:body=getbody', 'regresp:401:other', 'regresp:401:bad', 'regresp:401:basic+bearer', 'tokresp:grant:newrt'],
 }
